@@ -269,6 +269,14 @@ func c10LateSeed() []world.Op {
 	return append(append([]world.Op{}, c10Seed...), opBlock(3), opBlock(1), world.Op{K: world.KJail, V: 2}, opBlock(1))
 }
 
+// c10MagnitudeSeed: an 18-decimal asset (1000 and 2700 whole tokens = 1e21 base units and as many shares) next to
+// ordinary 6-decimal native stake: any per-share quantity of the target computation is multiplied by ~1e21.
+var c10MagnitudeSeed = []world.Op{
+	{K: world.KNDelegate, D: 99, V: 1, Amt: "500000"},
+	opDel(0, 0, "aaa", "1000000000000000000000"), opDel(1, 1, "aaa", "2700000000000000000000"), opDel(1, 0, "bbb", "1000000"),
+	opBlock(1),
+}
+
 func c10Ops(tier string, withRewards bool) func(n *engine.Node) []world.Op {
 	return func(n *engine.Node) []world.Op {
 		var ops []world.Op
@@ -322,7 +330,7 @@ func init() {
 			mk := func(name string, budgets []int, depth int) *engine.Scenario {
 				return &engine.Scenario{
 					Property: "C10", Name: name, Cfg: c10Config(), Stores: world.AllStores,
-					Seeds: [][]world.Op{c10Seed, c10LateSeed()}, ClassNames: classNames, Budgets: budgets, MaxDepth: depth,
+					Seeds: [][]world.Op{c10Seed, c10LateSeed(), c10MagnitudeSeed}, ClassNames: classNames, Budgets: budgets, MaxDepth: depth,
 					Ops: c10Ops(tier, false), Step: c10Step, SeedStep: true,
 					Required: []string{"block.quiet", "block.with_positive_target", "block.with_non_bonded_validator", "block.with_exchange_rate_not_1", "block.with_staked_warmup_asset", "native.full_exit", "real_slash", "jail", "max_validators_changed", "block.with_scheduled_weight_change"},
 				}
